@@ -230,3 +230,79 @@ Proof.
     + lia.
     + unfold swap_pad. rewrite map_length. exact Hl.
 Qed.
+
+(* ================= C15: sam toPairAlign --start/--end cuts from the column of base s to that of base e ================= *)
+Open Scope nat_scope.
+Lemma ref_offset_from_spec (R : list N) : forall g k, k < length (degap R) ->
+  exists col, col = k + nth k (ref_offset_from g R) 0 - g /\ g <= nth k (ref_offset_from g R) 0 /\
+              (nth col R 0%N =? 45)%N = false /\ length (degap (firstn col R)) = k /\ col < length R.
+Proof.
+  induction R as [|c t IH]; intros g k Hk; [cbn in Hk; lia|]. unfold degap in *. cbn [ref_offset_from filter] in *.
+  destruct (N.eqb_spec c 45) as [->|Hc]; cbn [negb] in Hk.
+  - destruct (IH (S g) k Hk) as (col & Hcol & Hge & Hn & Hf & Hl). exists (S col). cbn [nth firstn filter length].
+    replace (45 =? 45)%N with true by reflexivity. cbn [negb]. repeat split; try assumption; lia.
+  - cbn [length] in Hk. destruct k as [|k].
+    + exists 0. cbn. destruct (N.eqb_spec c 45); [contradiction|]. repeat split; lia.
+    + destruct (IH g k ltac:(lia)) as (col & Hcol & Hge & Hn & Hf & Hl). exists (S col). cbn [nth firstn filter].
+      destruct (N.eqb_spec c 45); [contradiction|]. cbn [negb length]. repeat split; try assumption; lia.
+Qed.
+Lemma ref_offset_from_length R : forall g, length (ref_offset_from g R) = length (degap R).
+Proof.
+  induction R as [|c t IH]; intros g; [reflexivity|]. unfold degap in *. cbn [ref_offset_from filter].
+  destruct (c =? 45)%N; cbn [negb length]; rewrite IH; reflexivity.
+Qed.
+Lemma degap_firstn_S R col : col < length R -> (nth col R 0%N =? 45)%N = false ->
+  degap (firstn (S col) R) = degap (firstn col R) ++ [nth col R 0%N].
+Proof.
+  revert col. induction R as [|c t IH]; intros col Hl Hn; [cbn in Hl; lia|]. destruct col as [|col].
+  - cbn [firstn nth] in *. unfold degap. cbn [filter]. rewrite Hn. reflexivity.
+  - cbn [firstn nth length] in *. unfold degap in *. cbn [filter]. destruct (negb (c =? 45)%N); cbn [app]; rewrite IH by (assumption || lia); reflexivity.
+Qed.
+
+Lemma degap_firstn_mono R : forall a b, a <= b -> length (degap (firstn a R)) <= length (degap (firstn b R)).
+Proof.
+  induction R as [|c t IH]; intros a b Hab; [rewrite !firstn_nil; lia|]. destruct a as [|a]; [cbn; lia|]. destruct b as [|b]; [lia|].
+  cbn [firstn]. unfold degap in *. cbn [filter]. specialize (IH a b ltac:(lia)). destruct (negb (c =? 45)%N); cbn [length]; lia.
+Qed.
+Lemma firstn_add {A} (R : list A) : forall a n, firstn (a + n) R = firstn a R ++ firstn n (skipn a R).
+Proof.
+  induction R as [|c t IH]; intros a n; [rewrite skipn_nil, !firstn_nil; reflexivity|]. destruct a as [|a]; [reflexivity|].
+  cbn [Nat.add firstn skipn app]. rewrite IH. reflexivity.
+Qed.
+
+Theorem trim_pair_cut ts te R Q R' Q' : ts <= te -> trim_pair ts te (R, Q) = Some (R', Q') ->
+  1 <= ts /\ te <= length (degap R) /\
+  exists a b, (nth a R 0%N =? 45)%N = false /\ length (degap (firstn a R)) = ts - 1 /\
+              (nth (b - 1) R 0%N =? 45)%N = false /\ length (degap (firstn (b - 1) R)) = te - 1 /\ a < b <= length R /\
+              R' = firstn (b - a) (skipn a R) /\ Q' = firstn (b - a) (skipn a Q) /\
+              degap R' = firstn (te - ts + 1) (skipn (ts - 1) (degap R)).
+Proof.
+  intros Hle H. unfold trim_pair in H. rewrite ref_offset_from_length in H.
+  destruct (Nat.ltb_spec (length (degap R)) te) as [|Hte]; [discriminate|]. destruct (Nat.eqb_spec ts 0) as [|Hts]; [discriminate|].
+  cbn [orb] in H.
+  destruct (ref_offset_from_spec R 0 (ts - 1) ltac:(lia)) as (a & Ha & _ & Hna & Hfa & Hla).
+  destruct (ref_offset_from_spec R 0 (te - 1) ltac:(lia)) as (b1 & Hb & _ & Hnb & Hfb & Hlb).
+  set (A := ts + nth (ts - 1) (ref_offset_from 0 R) 0 - 1) in *. set (B := te + nth (te - 1) (ref_offset_from 0 R) 0) in *.
+  assert (EA : A = a) by (unfold A; lia). assert (EB : B = S b1) by (unfold B; lia).
+  destruct (Nat.ltb_spec (length R) B); [discriminate|]. destruct (Nat.ltb_spec (length Q) B); [discriminate|].
+  destruct (Nat.ltb_spec B A); [discriminate|]. cbn [orb] in H. injection H as <- <-.
+  assert (HSb : length (degap (firstn (S b1) R)) = te).
+  { rewrite (degap_firstn_S R b1 Hlb Hnb), app_length, Hfb. cbn [length]. lia. }
+  (* the column of base ts is not right of the column of base te *)
+  assert (Hab : a <= b1).
+  { destruct (Nat.le_gt_cases a b1) as [|Hgt]; [assumption|]. exfalso.
+    pose proof (degap_firstn_mono R (S b1) a ltac:(lia)) as Hm. lia. }
+  split; [lia|]. split; [exact Hte|]. exists a, (S b1). rewrite EA, EB. replace (S b1 - 1) with b1 by lia.
+  repeat (split; [first [assumption|lia|reflexivity]|]).
+  (* the reference bases inside the cut *)
+  set (R1 := firstn (S b1 - a) (skipn a R)).
+  assert (E1 : degap (firstn (S b1) R) = degap (firstn a R) ++ degap R1).
+  { replace (S b1) with (a + (S b1 - a)) at 1 by lia. rewrite firstn_add, degap_app. reflexivity. }
+  assert (E2 : degap R = (degap (firstn a R) ++ degap R1) ++ degap (skipn (S b1) R)).
+  { rewrite <- E1, <- degap_app, firstn_skipn. reflexivity. }
+  assert (L1 : length (degap R1) = te - ts + 1).
+  { pose proof (f_equal (@length N) E1) as HL. rewrite app_length, HSb, Hfa in HL. lia. }
+  rewrite E2, <- app_assoc. rewrite skipn_app, Hfa, Nat.sub_diag. cbn [skipn].
+  rewrite (skipn_all2 (degap (firstn a R))) by lia. cbn [app].
+  rewrite firstn_app, L1, Nat.sub_diag. cbn [firstn]. rewrite app_nil_r. rewrite <- L1. apply eq_sym, firstn_all.
+Qed.
